@@ -543,7 +543,7 @@ def selftest(ctx: Ctx) -> int:
         row.update(pk="ok", real=list(b), uk="ok", un=c["x"])
         good.append(row)
         bb = list(b)
-        bb[len(bb) // 2] ^= 1
+        bb[len(bb) - 1 if c["kind"] == "req" else len(bb) // 2] ^= 1      # (the middle of a request may be free filler)
         corrupted.append(dict(row, id=row["id"] + "-flip", real=bb))
         corrupted.append(dict(row, id=row["id"] + "-trunc", real=list(b[:-1])))
         corrupted.append(dict(row, id=row["id"] + "-exc", pk="OverflowError", real=[]))
